@@ -140,6 +140,27 @@ func (f *frame) callFunc(fn *ssa.Function, bindings []*Val, args []*Val, res ssa
 				return nil, unsupported("vIte on non-terms")
 			}
 			return &Val{T: Ite(args[0].T, args[1].T, args[2].T), Typ: args[1].Typ}, nil
+		case "vLogStr", "vLogStrOld":
+			name, ok := strLitOf(args[0].T)
+			if !ok {
+				return nil, unsupported("vLogStr needs a constant log name")
+			}
+			st := f.st
+			if originName(fn) == "vLogStrOld" && f.oldSt != nil {
+				st = f.oldSt
+			}
+			ls := f.e.Sorts.SeqOf(f.e.Sorts.Str)
+			return &Val{T: f.get(st, f.e.regKey("LOG:"+name, ls), ls), Typ: fn.Signature.Results().At(0).Type()}, nil
+		case "vCat":
+			if args[0].T == nil || args[1].T == nil {
+				return nil, unsupported("vCat on non-terms")
+			}
+			return &Val{T: SeqCat(args[0].T, args[1].T), Typ: args[0].Typ}, nil
+		case "vSeqEq":
+			if args[0].T == nil || args[1].T == nil {
+				return nil, unsupported("vSeqEq on non-terms")
+			}
+			return &Val{T: Eq(args[0].T, args[1].T), Typ: types.Typ[types.Bool]}, nil
 		case "vTrig":
 			if f.triggers != nil {
 				for _, a := range args {
@@ -155,6 +176,9 @@ func (f *frame) callFunc(fn *ssa.Function, bindings []*Val, args []*Val, res ssa
 			return f.inlineCall(fn, bindings, args)
 		}
 		return f.specCall(fn, args)
+	}
+	if fn.Name() == "As" && fn.Pkg != nil && (fn.Pkg.Pkg.Path() == "errors" || fn.Pkg.Pkg.Path() == "github.com/go-faster/errors") && len(args) == 2 {
+		return f.errorsAs(args, pos)
 	}
 	if fc := f.e.contractFor(f.pkg, fn); fc != nil && !f.inline[fn.Name()] && !(f.top && fn == f.fn && false) {
 		return f.callContract(fc, fn, args, pos)
@@ -176,11 +200,22 @@ func (f *frame) specCall(fn *ssa.Function, args []*Val) (*Val, error) {
 		return nil, err
 	}
 	ts := make([]*Term, len(args))
+	litArg := false
 	for i, a := range args {
 		if a.T == nil {
 			return nil, unsupported("spec function %s called with a pointer/closure argument", fn.Name())
 		}
 		ts[i] = a.T
+		if a.T.Sort.Kind == KSeq && a.T.Sort.Elem == SInt {
+			if l, ok := seqLiteral(a.T); ok && len(l) > 0 {
+				litArg = true
+			}
+		}
+	}
+	// a non-recursive spec function applied to a string literal is expanded in place, so that
+	// comparisons with the literal are simplified (length and elements stated explicitly)
+	if litArg && !sym.Recursive && !sym.inProg && f.depth < 12 {
+		return f.inlineCall(fn, nil, args)
 	}
 	var rs []*Term
 	for i := range sym.ResSorts {
@@ -542,6 +577,9 @@ func parseModifies(fc *FuncContract) ([]modLoc, error) {
 	all := fc.AllParams()
 	for _, m := range fc.Modifies {
 		m = strings.TrimSpace(m)
+		if strings.HasPrefix(m, "log:") {
+			continue
+		}
 		m = strings.TrimPrefix(m, "*")
 		name, field := m, ""
 		if k := strings.Index(m, "."); k >= 0 {
@@ -604,6 +642,18 @@ func (e *Engine) modifiesKeys(fc *FuncContract, callee *ssa.Function) ([]string,
 		out = append(out, ks...)
 	}
 	return out, nil
+}
+
+// modifiedLogs lists the ghost logs a contract declares as modified (`modifies log:NAME`) or appends to.
+func modifiedLogs(fc *FuncContract) []string {
+	var out []string
+	for _, m := range fc.Modifies {
+		m = strings.TrimSpace(m)
+		if strings.HasPrefix(m, "log:") {
+			out = append(out, strings.TrimPrefix(m, "log:"))
+		}
+	}
+	return out
 }
 
 func (f *frame) callContract(fc *FuncContract, callee *ssa.Function, args []*Val, pos token.Pos) (*Val, error) {
@@ -702,6 +752,44 @@ func (f *frame) callContract(fc *FuncContract, callee *ssa.Function, args []*Val
 			f.st.m[k] = Store(arr, ref.T, f.e.fresh("havoc!"+sanitize(k), s.Elem))
 		}
 	}
+	for _, ln := range modifiedLogs(fc) {
+		if f.pure {
+			return nil, unsupported("call of effectful function %s in a specification", fc.Key)
+		}
+		ls := f.e.Sorts.SeqOf(f.e.Sorts.Str)
+		key := f.e.regKey("LOG:"+ln, ls)
+		f.st.m[key] = f.e.fresh("havoc!LOG."+ln, ls)
+	}
+	for _, ef := range fc.Effects {
+		if f.pure {
+			return nil, unsupported("call of effectful function %s in a specification", fc.Key)
+		}
+		efn, err := f.e.clauseFunc(fc, ef)
+		if err != nil {
+			return nil, err
+		}
+		sub := f.child(efn, true)
+		sub.pkg = f.e.PkgOf[fc]
+		sub.st = pre.clone()
+		sub.reach = TTrue
+		for i, b := range ef.Bind {
+			if b.Kind == "param" {
+				sub.vals[efn.Params[i]] = args[b.Index]
+			} else {
+				return nil, unsupported("effect expression may only mention parameters")
+			}
+		}
+		if err := sub.run(); err != nil {
+			return nil, err
+		}
+		ev, err := sub.mergedResult()
+		if err != nil || ev == nil || ev.T == nil {
+			return nil, unsupported("effect expression of %s", fc.Key)
+		}
+		ls := f.e.Sorts.SeqOf(f.e.Sorts.Str)
+		key := f.e.regKey("LOG:"+ef.Label, ls)
+		f.st.m[key] = SeqCat(f.get(f.st, key, ls), SeqUnit(ls, ev.T))
+	}
 	var rvals []*Val
 	for i, r := range results {
 		rvals = append(rvals, &Val{T: r, Typ: sig.Results().At(i).Type()})
@@ -761,7 +849,22 @@ func (f *frame) checkFrame(params []*Val, pos token.Pos) error {
 			allowed[k] = append(allowed[k], params[ml.param].T)
 		}
 	}
+	logsOK := map[string]bool{}
+	for _, ln := range modifiedLogs(f.fc) {
+		logsOK["LOG:"+ln] = true
+	}
+	for _, ef := range f.fc.Effects {
+		logsOK["LOG:"+ef.Label] = true
+	}
 	for _, k := range sortedKeys(f.st.m) {
+		if strings.HasPrefix(k, "LOG:") && !logsOK[k] {
+			cur := f.st.m[k]
+			old := f.get(f.oldSt, k, cur.Sort)
+			if cur != old && cur.String() != old.String() {
+				f.oblige("frame", sanitize(k), Eq(cur, old), pos)
+			}
+			continue
+		}
 		if !(strings.HasPrefix(k, "H:") || strings.HasPrefix(k, "C:") || strings.HasPrefix(k, "G:")) {
 			continue
 		}
@@ -827,7 +930,148 @@ func (f *frame) invoke(cc *ssa.CallCommon, res ssa.Value, pos token.Pos) (*Val, 
 		all := append([]*Val{recv}, args...)
 		return f.callIfaceContract(fc, cc, all, pos)
 	}
+	if f.e.pureMethod(f.pkg, cc.Method.Name()) {
+		args, err := f.argVals(cc.Args)
+		if err != nil {
+			return nil, err
+		}
+		if recv.T == nil {
+			return nil, unsupported("pure method on a non-term receiver")
+		}
+		ts := []*Term{recv.T}
+		asorts := []*Sort{recv.T.Sort}
+		for _, a := range args {
+			if a.T == nil {
+				return nil, unsupported("pure method with a non-term argument")
+			}
+			ts = append(ts, a.T)
+			asorts = append(asorts, a.T.Sort)
+		}
+		sig := cc.Signature()
+		if sig.Results().Len() != 1 {
+			return nil, unsupported("pure method %s must have exactly one result", cc.Method.Name())
+		}
+		rs, err := f.e.Sorts.SortOf(sig.Results().At(0).Type())
+		if err != nil {
+			return nil, err
+		}
+		name := "invoke." + sanitize(cc.Method.FullName())
+		f.e.Defs.noteFunc(name, asorts, rs)
+		r := App(name, rs, ts...)
+		if f.c != nil {
+			f.assume(f.e.rangeFact(r, sig.Results().At(0).Type()))
+			if f.c.assumed == nil {
+				f.c.assumed = map[string]bool{}
+			}
+			f.c.assumed["interface method "+cc.Method.FullName()+" is a pure observer"] = true
+		}
+		return &Val{T: r, Typ: sig.Results().At(0).Type()}, nil
+	}
 	return nil, unsupported("interface method call %s (no contract on the interface method)", cc.Method.Name())
+}
+
+// pureMethod: the contract files of the package declare the method name as a pure observer.
+func (e *Engine) pureMethod(from *ssa.Package, name string) bool {
+	if from == nil {
+		return false
+	}
+	cs := e.Sets[from.Pkg.Path()]
+	if cs == nil {
+		return false
+	}
+	for _, cf := range cs.Files {
+		for _, m := range cf.PureMethods {
+			if m == name {
+				return true
+			}
+		}
+	}
+	return false
+}
+
+func strLitOf(t *Term) (string, bool) {
+	if t == nil {
+		return "", false
+	}
+	var bs []byte
+	var walk func(x *Term) bool
+	walk = func(x *Term) bool {
+		switch {
+		case strings.HasPrefix(x.Op, "empty."):
+			return true
+		case strings.HasPrefix(x.Op, "unit."):
+			if x.Args[0].Int == nil {
+				return false
+			}
+			bs = append(bs, byte(x.Args[0].Int.Int64()))
+			return true
+		case strings.HasPrefix(x.Op, "cat."):
+			return walk(x.Args[0]) && walk(x.Args[1])
+		case strings.HasPrefix(x.Op, "lit."):
+			for _, a := range x.Args {
+				if a.Int == nil {
+					return false
+				}
+				bs = append(bs, byte(a.Int.Int64()))
+			}
+			return true
+		}
+		return false
+	}
+	if !walk(t) {
+		return "", false
+	}
+	return string(bs), true
+}
+
+// errorsAs models errors.As(err, &target): the outcome and the extracted value are uninterpreted
+// functions of err per target type (the first element of err's chain assignable to that type).
+func (f *frame) errorsAs(args []*Val, pos token.Pos) (*Val, error) {
+	errT := args[0].T
+	tgt := args[1].T
+	if errT == nil || tgt == nil || !strings.HasPrefix(tgt.Op, "box.") {
+		return nil, unsupported("errors.As with a target that is not &variable")
+	}
+	var pt types.Type
+	for _, t := range f.e.Sorts.ifaceTagTypes {
+		if boxName(t) == tgt.Op {
+			pt = t
+		}
+	}
+	ptr, ok := pt.(*types.Pointer)
+	if !ok {
+		return nil, unsupported("errors.As target type %v", pt)
+	}
+	et := ptr.Elem()
+	es, err := f.e.Sorts.SortOf(et)
+	if err != nil {
+		return nil, err
+	}
+	key := sanitize(shortTypeName(et))
+	okN, valN := "errors.as.ok."+key, "errors.as.val."+key
+	f.e.Defs.noteFunc(okN, []*Sort{SIface}, SBool)
+	f.e.Defs.noteFunc(valN, []*Sort{SIface}, es)
+	okT := App(okN, SBool, errT)
+	valT := App(valN, es, errT)
+	ref := tgt.Args[0]
+	p := &Ptr{Kind: pHeap, Ref: ref, Elem: et}
+	old, err := f.load(p, et)
+	if err != nil {
+		return nil, err
+	}
+	if err := f.store(p, Ite(okT, valT, old), et); err != nil {
+		return nil, err
+	}
+	if f.c != nil && !f.bound {
+		f.assume(Implies(Eq(errT, f.e.nilIface()), Not(okT)))
+		switch es {
+		case SRef:
+			f.assume(Implies(okT, Not(Eq(valT, f.e.nilRef()))))
+		case SIface:
+			f.assume(Implies(okT, Not(Eq(valT, f.e.nilIface()))))
+		}
+	}
+	return &Val{T: okT, Typ: types.Typ[types.Bool]}, nil
 }
 
 func (e *Engine) ifaceContract(from *ssa.Package, m *types.Func) *FuncContract { return nil }
